@@ -253,3 +253,83 @@ Definition py_capture (capture : bool) (verbosity : Z) (ws : list (bool * Z)) (e
   let se := srun false true ops in
   {| c_out := s_attr so 0%nat; c_err := s_attr se 0%nat; c_live_out := s_orig so; c_live_err := s_orig se;
      c_cell_out := s_cell so; c_cell_err := s_cell se |}.
+
+(* ---- which verbosity a task is executed with: the glue between the command line, the runner and
+   Task.execute ----
+   task.py 56-82 (Stream): a Stream holds the global verbosity and whether it is forced
+   (command line).  Stream(None, f) falls back to Task.DEFAULT_VERBOSITY = 1 and is never forced
+   (68-72). *)
+Definition DEFAULT_VERBOSITY : Z := 1.
+Record vstream := { vs_verbosity : Z; vs_force : bool }.
+Definition mk_stream (verbosity : option Z) (force_global : bool) : vstream :=
+  match verbosity with
+  | Some v => {| vs_verbosity := v; vs_force := force_global |}
+  | None => {| vs_verbosity := DEFAULT_VERBOSITY; vs_force := false |}
+  end.
+(* Stream.effective_verbosity (task.py 74-81); [tv] is the task's `verbosity` attribute, None = not given *)
+Definition effective_verbosity (st : vstream) (tv : option Z) : Z :=
+  if vs_force st then vs_verbosity st
+  else match tv with Some v => v | None => vs_verbosity st end.
+(* the `run` command: cmd_base.py 527 (config values of the dodo file / INI become the defaults of
+   the options that were not given on the command line), 563 (force_verbosity = the option was
+   given on the command line), cmd_run.py 246 (Stream(verbosity, force_verbosity)).
+   [cli] = value of -v/--verbosity if given, [cfg] = value of the configuration if any. *)
+Definition cmd_stream (cli cfg : option Z) : vstream :=
+  mk_stream (match cli with Some v => Some v | None => cfg end)
+            (match cli with Some _ => true | None => false end).
+
+(* Runner.select_task (runner.py 107-186), as far as the attribute task.verbosity is concerned:
+   a visit that finds node.run_status None (the first one) calls task.overwrite_verbosity
+   (runner.py 124-125; task.py 484-485: self.verbosity := stream.effective_verbosity(self.verbosity))
+   BEFORE any of its early returns; a later visit (run_status 'run', the else branch 161-177) leaves
+   the attribute alone. *)
+Definition select_visit (st : vstream) (first : bool) (attr : option Z) : option Z :=
+  if first then Some (effective_verbosity st attr) else attr.
+(* a task that is executed was visited once -- or twice if it has setup tasks: the first visit ends
+   with `return False` (158-160: "dont execute now, execute setup first"), the dispatcher sends the
+   task again after its setup tasks (control.py 528-547).  The attribute when Task.execute /
+   Task.execute_teardown read it: *)
+Definition attr_at_execute (st : vstream) (has_setup : bool) (raw : option Z) : option Z :=
+  let a1 := select_visit st true raw in
+  if has_setup then select_visit st false a1 else a1.
+(* Task.execute hands the attribute to Stream._get_out_err (task.py 493, 506), which compares it
+   with 0 and with 1 (91-96): None -- like any other value -- selects the last branch (both streams
+   live).  -1 stands for None. *)
+Definition verb_arg (attr : option Z) : Z := match attr with Some v => v | None => -1 end.
+
+(* a run of tasks with their own verbosity and setup tasks.  [stask]: one task; [vtask]: a task and
+   the tasks named in its `setup` (each used by this task only, without setup tasks of its own).
+   Tasks are always executed here (no dependencies, so never up-to-date), default options: the
+   setup tasks of a task run in the order given just before it (control.py 538-547), the first
+   task that does not succeed ends the run (a task whose setup task failed is not executed). *)
+Record stask := { st_verb : option Z; st_capture : bool; st_acts : list aspec; st_teardown : list aspec }.
+Record vtask := { vt_task : stask; vt_setup : list stask }.
+Definition has_setup (t : vtask) : bool := match vt_setup t with [] => false | _ => true end.
+(* execution order: (visited twice?, task) *)
+Definition units_of (ts : list vtask) : list (bool * stask) :=
+  flat_map (fun t => map (fun s => (false, s)) (vt_setup t) ++ [(has_setup t, vt_task t)]) ts.
+Definition exec_verbosity (st : vstream) (u : bool * stask) : Z :=
+  verb_arg (attr_at_execute st (fst u) (st_verb (snd u))).
+Fixpoint vrun_ops (st : vstream) (us : list (bool * stask)) (tds : list sop) : list sop :=
+  match us with
+  | [] => tds
+  | u :: r =>
+      let v := exec_verbosity st u in
+      let t := snd u in
+      let tds' := task_ops (st_capture t) v (st_teardown t) ++ tds in
+      task_ops (st_capture t) v (st_acts t) ++
+        match task_outcome (st_acts t) with AOk => vrun_ops st r tds' | _ => tds' end
+  end.
+Fixpoint vrun_outcome (us : list (bool * stask)) : aout :=
+  match us with
+  | [] => AOk
+  | u :: r => match task_outcome (st_acts (snd u)) with AOk => vrun_outcome r | o => o end
+  end.
+(* the attribute task.verbosity of every task of the run afterwards, as the argument of
+   _get_out_err; -9 for a task the run did not get to *)
+Fixpoint vrun_verbs (st : vstream) (us : list (bool * stask)) : list Z :=
+  match us with
+  | [] => []
+  | u :: r => exec_verbosity st u ::
+      match task_outcome (st_acts (snd u)) with AOk => vrun_verbs st r | _ => map (fun _ => -9) r end
+  end.
